@@ -267,7 +267,8 @@ _TOKEN_MATCHERS.extend([
     (re.compile(br'0[bB]\.[01]+'), TokNumber),
     (re.compile(br'[0-9]+(\.(?!\.)[0-9]*)?([eE][+-]?[0-9]+)?'), TokNumber),
     (re.compile(br'\.[0-9]+([eE][+-]?[0-9]+)?'), TokNumber),
-    (re.compile(br'::[a-zA-Z_\x80-\xff][a-zA-Z0-9_\x80-\xff]*::'), TokLabel),
+    (re.compile(br'::[ \t]*[a-zA-Z_\x80-\xff][a-zA-Z0-9_\x80-\xff]*[ \t]*::'),
+     TokLabel),
 ])
 _TOKEN_MATCHERS.extend([
     (re.compile(keyword+br'(?![a-zA-Z0-9_\x80-\xff])'), TokKeyword)
